@@ -36,6 +36,7 @@ type c06Case struct {
 	Op    string   `json:"op,omitempty"`    // set | del | move
 	Seed2 uint64   `json:"seed2,omitempty"` // second message / wrong key
 	Prim  string   `json:"prim,omitempty"`  // primitive-level case
+	Reuse bool     `json:"reuse,omitempty"` // the caller reuses the buffer it parsed from (Base is a mode-"reuse" case, c05_reuse.go)
 	Calls int      `json:"calls,omitempty"` // primitive history: number of calls on ONE algorithm object with reused buffers
 	Side  string   `json:"side,omitempty"`  // history case: parsed | sender
 	Ops   []string `json:"ops,omitempty"`   // history case: operations applied to ONE Message object
@@ -319,6 +320,10 @@ func applyMutation(cs c06Case, m *c06Msg, t int, r *vf.Rand, other *c06Msg, othe
 }
 
 func execC06(c *vf.Ctx, d *vf.Driver, cs c06Case) {
+	if cs.Reuse {
+		execReuse(c, d, cs.Base, "c06")
+		return
+	}
 	if cs.Side != "" {
 		execC06Hist(c, d, cs)
 		return
@@ -1193,6 +1198,12 @@ func runC06(c *vf.Ctx) {
 		}
 		for i := 0; i < c.Budget(40, 400); i++ {
 			execC06(c, d, c06Case{Prim: vf.Pick(r, c06Prims), Seed2: r.U64()})
+		}
+		// reuse stream: parse from a sub-slice of a read buffer, the caller reuses the buffer, then Decrypt / Compact / MarshalJSON
+		for i := 0; i < c.Budget(6, 40); i++ {
+			for _, how := range c05ReuseHows {
+				execC06(c, d, c06Case{Reuse: true, Base: genReuse(r, how)})
+			}
 		}
 		// primitive histories: 2-4 calls on ONE algorithm object, the caller's buffers reused and changed in place
 		for i := 0; i < c.Budget(60, 600); i++ {
